@@ -29,6 +29,7 @@ static const char* const LOGOPS[] = {" & ", " \xE2\x88\xA8 ", " \xE2\x87\x92 ", 
 static const char* const PREDS[] = {"\xE2\x88\x88", "\xE2\x88\x89", "\xE2\x8A\x82", "\xE2\x8A\x86", "\xE2\x8A\x84", "=", "\xE2\x89\xA0", "<", "\xE2\x89\xA4", ">", "\xE2\x89\xA5"};
 static const char* const TEMPLATES[] = {
   "(X1%sX2)%sX3", "X1%s(X2%sX3)", "X1%sX2%sX3", "(X1%sX2%sX3)%sX1",
+  "X1%s(X2%sX3)%sX1", "X1%sX2%sX3%sX1", "(X1%sX2)%s(X3%sX1)", "X1%s(X2%sX3)%sX1%sX2",   // an operand that is neither the first nor the last (n-ary product)
   "\xE2\x84\xAC(X1%sX2)", "\xE2\x84\xAC\xE2\x84\xAC(X1)%sX2", "card(X1%sX2)%s1", "pr1(S1)%sX1", "Pr1,2(S1)%sX1", "red(S2)%sX1", "debool(X1)%sX1", "bool(X1)%sX1",
   "X1%pX2", "X1%sX2%pX3%sX1", "(X1%pX2)%l(X1%pX2)", "\xC2\xAC(X1%pX2)%lX1=X1", "\xC2\xACX1%pX2",
   "(X1=X1%lX1=X1)%lX1=X1", "X1=X1%l(X1=X1%lX1=X1)", "X1=X1%lX1=X1%lX1=X1",
